@@ -545,8 +545,11 @@ func (g *eng) seqCase(x *ex, text string, paths []*vpath, class string) {
 		key = "as-spelling"
 	}
 	if err != nil {
-		e.Violate("C47/"+key, "NewSequence rejects a syntactically valid expression: "+err.Error(),
-			map[string]any{"sequence": text})
+		what := "NewSequence rejects a syntactically valid expression: " + err.Error()
+		if strings.Contains(err.Error(), "order-preserving") { // maskOf's own error
+			key, what = "seq-order", "Sequence.Eval: "+err.Error()
+		}
+		e.Violate("C47/"+key, what, map[string]any{"sequence": text, "paths": pathWords(paths)})
 		return
 	}
 	for i, p := range paths {
